@@ -134,7 +134,19 @@ NEEDS.update({
  "k16": "input: egress rule with a podSelector-only peer, a same-labelled pod in another namespace",
  "k20": "fault or input + repetition: a configmap text that decodes but ConfigurePool refuses (null entry, or the store list fails), polled again",
 })
-OTHER = {'k20': ['C09'], 'k02': ['C07'], 'k05': ['C09'], 'j08': ['C05'], 'j01': ['C04'], 'b02': ['C03', 'C05'], 'a04': ['C10'], 'd02': ['C06'], 'd09': ['C05', 'C06'], 'e06': ['C08', 'C05'], 'e01': ['C09', 'C05'], 'e10': ['C04'], 'e04': ['C01'], 'f13': ['C12'], 'd01': ['C04'], 'i02': ['C05'], 'i06': ['C09', 'C05'], 'i04': ['C01'], 'g02b': ['C06'], 'g10': ['C04'], 'g19': ['C06'], 'f16a': ['C15'], 'f15b': ['C16']}
+NEEDS.update({
+ "l01": "fault + repetition: a second Bind of a pod that is already bound (the API answers 409 Conflict), then the queued release runs",
+ "l03": "multi-step: never/immutable allocation, restart or reload (memory rebuilt from the store), pod absent, resync",
+ "l04": "input: index-named app with members x-1 and x-10 (one key is a string prefix of the other); the shorter-named pod goes away while the longer-named one lives",
+ "l07": "input: a Pool object of size 0 (created so, or shrunk to freeze the pool)",
+ "l08": "fault: a FloatingIP create answers AlreadyExists (somebody else's object) in the middle of a multi-range allocation",
+ "l09": "fault: the store create inside AllocateInSubnet fails (AlreadyExists of an unseen reservation, or any error) - memory was updated first",
+ "l10": "interleaving: release API (locking the wrong pod key) overlaps the Bind of the recreated pod, cloud provider configured",
+ "l17": "fault: one iptables error inside the port-mapping cleanup of a DEL / GC callback; the port file is removed first, so no retry can clean the rules",
+ "l18": "interleaving: Filter of a pod with (wide) ip ranges holds the IPAM read lock, a writer queues, the request re-enters the read lock",
+ "l19": "interleaving: a lookup of a cached custom-resource kind reads the map without the lock while a lookup of an uncached kind rewrites it",
+})
+OTHER = {'l17': ['C14'], 'l08': ['C09'], 'l10': ['C04'], 'l01': ['C04'], 'k20': ['C09'], 'k02': ['C07'], 'k05': ['C09'], 'j08': ['C05'], 'j01': ['C04'], 'b02': ['C03', 'C05'], 'a04': ['C10'], 'd02': ['C06'], 'd09': ['C05', 'C06'], 'e06': ['C08', 'C05'], 'e01': ['C09', 'C05'], 'e10': ['C04'], 'e04': ['C01'], 'f13': ['C12'], 'd01': ['C04'], 'i02': ['C05'], 'i06': ['C09', 'C05'], 'i04': ['C01'], 'g02b': ['C06'], 'g10': ['C04'], 'g19': ['C06'], 'f16a': ['C15'], 'f15b': ['C16']}
 only = sys.argv[1:]
 for sid, (prop, pkg) in SEEDS.items():
     if only and sid not in only: continue
